@@ -1,8 +1,112 @@
 /-
-C17 — Outline part (theorems). See reports/C17.md.
+C17 — drawn-outline preservation of the per-glyph rewrite (klippa/src/glyf_loca.rs `subset_glyph`,
+`subset_simple_glyph`, `subset_composite_glyph`; model `FontVerif.Subset.subsetGlyphBytes`, Model/Subset.lean) stated
+THROUGH C09's model of the read-fonts glyph reader (Model/Glyf.lean: `SimpleGlyph::read`, `points()` = `PointIter`,
+`read_points_fast`, `CompositeGlyph::read`, `components()` = `ComponentIter`).
+
+What the rewritten record decodes to is what the original record decodes to, with component glyph ids renamed by the
+plan's glyph map: the outline of a kept glyph is preserved by construction, not only on the sampled fonts.
+(Proofs: Lemmas/SubsetOutline.lean … SubsetOutline7.lean.)
 -/
-import FontVerif.Model.Base
+import FontVerif.Lemmas.SubsetOutline7
+set_option linter.unusedVariables false
 namespace FontVerif.C17Outline
-open FontVerif
+open FontVerif FontVerif.Subset FontVerif.SubsetOutline
+
+/-- **subset_simple_glyph_decodes_equal.**  For every glyph record `d` (bytes < 256) with a non-negative contour count,
+every flag combination (NO_HINTING, SET_OVERLAPS_FLAG, …) and every glyph map: if `subset_glyph` writes the glyph
+non-empty, then read-fonts parses both records (`SimpleGlyph::read`), and the subset has the same contour count, bounding
+box and contour end points, the same points — coordinates and on-curve flags, as yielded by `points()` (`PointIter` over
+`resolve_coords_len`) —, its instructions are the original's (none under NO_HINTING), and `read_points_fast` (what skrifa
+draws from) answers the same on both, provided the original's flag array is not longer than its point count (the fast
+reader looks at no more than `num_points` flag bytes; a record with more flag bytes than points — only possible with
+repeat counts of zero — is mis-decoded by it before and after subsetting, see reports/C17.md).  Padding after the
+coordinate data is the only thing removed; OVERLAP_SIMPLE on the first flag does not change any decoded value. -/
+theorem subset_simple_glyph_decodes_equal (flags : Nat) (gmap : Nat → Option Nat) (d out : Bytes)
+    (hb : ∀ b ∈ d, b < 256) (hs : u16At d 0 < 32768)
+    (h : subsetGlyphBytes flags gmap d = .bytes out) (hne : out ≠ []) :
+    ∃ v v', Glyf.readSimple d = some v ∧ Glyf.readSimple out = some v' ∧
+      v'.nContours = v.nContours ∧ v'.xMin = v.xMin ∧ v'.yMin = v.yMin ∧ v'.xMax = v.xMax ∧ v'.yMax = v.yMax ∧
+      v'.endPts = v.endPts ∧
+      v'.instructions = (if hasFlag flags F_NO_HINTING then [] else v.instructions) ∧
+      v'.points = v.points ∧
+      ((∀ fl xl yl, Glyf.resolveCoordsLen v.glyphData 0 v.numPoints 0 0 = some (fl, xl, yl) → fl ≤ v.numPoints) →
+        v'.readPointsFast = v.readPointsFast) := by
+  obtain ⟨v, v', h1, h2, e1, e2, e3, e4, e5, e6, e7, e8, e9, _⟩ := simple_decodes_equal flags gmap d out hb hs h hne
+  exact ⟨v, v', h1, h2, e1, e2, e3, e4, e5, e6, e7, e8, e9⟩
+
+/-- **subset_composite_glyph_decodes_equal.**  For every composite record, flag combination and glyph map: if
+`subset_glyph` writes the glyph non-empty then read-fonts parses both records, the bounding box is unchanged, and the
+component list of the subset (`components()`, i.e. `ComponentIter` — flags, glyph id, anchor = offsets or point numbers,
+2x2 transform) is the original's component list with every glyph id replaced by its image under the glyph map (`as u16`)
+— every component HAS an image —, anchors and transforms untouched, and flag words changed only by
+`compFlags`: WE_HAVE_INSTRUCTIONS removed under NO_HINTING, OVERLAP_COMPOUND set on the first component under
+SET_OVERLAPS_FLAG (see `component_flag_bits_kept`). -/
+theorem subset_composite_glyph_decodes_equal (flags : Nat) (gmap : Nat → Option Nat) (d out : Bytes)
+    (hs : ¬ u16At d 0 < 32768) (h : subsetGlyphBytes flags gmap d = .bytes out) (hne : out ≠ []) :
+    ∃ v v', Glyf.readComposite d = some v ∧ Glyf.readComposite out = some v' ∧
+      v'.xMin = v.xMin ∧ v'.yMin = v.yMin ∧ v'.xMax = v.xMax ∧ v'.yMax = v.yMax ∧
+      mapComps flags gmap true v.components = some v'.components := by
+  obtain ⟨v, v', h1, h2, e1, e2, e3, e4, e5, _⟩ := composite_decodes_equal flags gmap d out hs h hne
+  exact ⟨v, v', h1, h2, e1, e2, e3, e4, e5⟩
+
+/-- **components_renamed_pointwise.**  What `mapComps` means, component by component: same number of components; the
+k-th component of the subset is the k-th of the original with its glyph id mapped and its flag word passed through
+`compFlags` (position 10 = first component). -/
+theorem components_renamed_pointwise (flags : Nat) (gmap : Nat → Option Nat) (first : Bool)
+    (cs cs' : List Glyf.RComponent) (h : mapComps flags gmap first cs = some cs') :
+    cs'.length = cs.length ∧
+    ∀ k, k < cs.length → ∃ c n, cs[k]? = some c ∧ gmap c.glyph = some n ∧
+      cs'[k]? = some { c with flags := compFlags flags (if first && k == 0 then 10 else 0) c.flags, glyph := n % 65536 } :=
+  mapComps_spec flags gmap first cs cs' h
+
+/-- **component_flag_bits_kept.**  The flag rewrite keeps every bit that positions or draws a component:
+ARG_1_AND_2_ARE_WORDS, ARGS_ARE_XY_VALUES, ROUND_XY_TO_GRID, the three scale bits, MORE_COMPONENTS, USE_MY_METRICS,
+SCALED_COMPONENT_OFFSET, UNSCALED_COMPONENT_OFFSET (any mask inside 0x1EEF without 0x0400), for every flag word as
+read-fonts yields it (`from_bits_truncate`). -/
+theorem component_flag_bits_kept (flags i x m : Nat) (hm : 0x1EEF &&& m = m ∧ 0x0400 &&& m = 0) :
+    Glyf.hasBit (compFlags flags i (x &&& COMPOSITE_KNOWN_BITS)) m = Glyf.hasBit (x &&& COMPOSITE_KNOWN_BITS) m :=
+  hasBit_compFlags flags i x m hm
+
+/-- **subset_glyph_decodes_equal.**  Both cases in one statement: whenever `subset_glyph` writes a glyph non-empty, the
+written record decodes (contours, end points, points with on-curve flags, bounding box / components with anchors and
+transforms) to the glyph-id renaming of what the original record decodes to. -/
+theorem subset_glyph_decodes_equal (flags : Nat) (gmap : Nat → Option Nat) (d out : Bytes)
+    (hb : ∀ b ∈ d, b < 256) (h : subsetGlyphBytes flags gmap d = .bytes out) (hne : out ≠ []) :
+    ∃ g g', decodeGlyph d = some g ∧ decodeGlyph out = some g' ∧ renameDecoded flags gmap g = some g' :=
+  glyph_decodes_equal flags gmap d out hb h hne
+
+/-! ## non-vacuity -/
+
+/-- a 1-contour glyph with 3 points (flag 0x37 repeated twice: short positive x and y deltas), one instruction byte
+and two bytes of padding; NO_HINTING + SET_OVERLAPS_FLAG: instructions dropped, padding trimmed, bit 0x40 set -/
+def exSimple : Bytes := [0, 1, 0, 0, 0, 0, 0, 9, 0, 9, 0, 2, 0, 1, 0xB0, 0x3F, 2, 1, 2, 3, 4, 5, 6, 0, 0]
+
+example : subsetGlyphBytes 0x11 (fun _ => none) exSimple =
+    .bytes [0, 1, 0, 0, 0, 0, 0, 9, 0, 9, 0, 2, 0, 0, 0x7F, 2, 1, 2, 3, 4, 5, 6] := by decide
+
+example : decodeGlyph exSimple =
+    some (.simple 1 0 0 9 9 [2] [⟨1, 4, true⟩, ⟨3, 9, true⟩, ⟨6, 15, true⟩]) := by decide
+
+example : decodeGlyph [0, 1, 0, 0, 0, 0, 0, 9, 0, 9, 0, 2, 0, 0, 0x7F, 2, 1, 2, 3, 4, 5, 6] =
+    some (.simple 1 0 0 9 9 [2] [⟨1, 4, true⟩, ⟨3, 9, true⟩, ⟨6, 15, true⟩]) := by decide
+
+/-- two components (5 with byte offsets + USE_MY_METRICS + MORE_COMPONENTS, 7 with word offsets and a scale +
+WE_HAVE_INSTRUCTIONS), two instruction bytes, padding; glyph map 5 ↦ 2, 7 ↦ 3 -/
+def exComposite : Bytes :=
+  [0xFF, 0xFF, 0, 0, 0, 0, 0, 9, 0, 9, 0x02, 0x22, 0, 5, 1, 0xFF, 0x01, 0x0B, 0, 7, 0, 100, 0xFF, 0xFE, 0x20, 0x00, 0, 2, 0xB0, 0xB1, 0, 0]
+
+def exMap : Nat → Option Nat := fun g => if g = 5 then some 2 else if g = 7 then some 3 else none
+
+example : subsetGlyphBytes 0 exMap exComposite = .bytes (exComposite.take 30 |>.set 13 2 |>.set 19 3) := by decide
+
+example : (decodeGlyph exComposite).bind (renameDecoded 0 exMap) =
+    decodeGlyph (exComposite.take 30 |>.set 13 2 |>.set 19 3) := by decide
+
+example : decodeGlyph exComposite = some (.composite 0 0 9 9
+    [⟨0x0222, 5, .offset 1 (-1), ⟨16384, 0, 0, 16384⟩⟩, ⟨0x010B, 7, .offset 100 (-2), ⟨8192, 0, 0, 8192⟩⟩]) := by decide
+
+/-- the hypothesis of the `read_points_fast` clause is satisfiable (3 points, 2 flag bytes) -/
+example : Glyf.resolveCoordsLen [0x3F, 2, 1, 2, 3, 4, 5, 6, 0, 0] 0 3 0 0 = some (2, 3, 3) := by decide
 
 end FontVerif.C17Outline
